@@ -119,7 +119,7 @@ pub fn replay(input: &str, output: &str) {
     }
     // ---- round trips of to_yaml
     let mut sets: Vec<(String, Parameters)> = robots::named_robots().into_iter().map(|(n, p)| (n.to_string(), p)).collect();
-    let n_rand = if thorough() { 3000 } else { 300 };
+    let n_rand = if thorough() { 10000 } else { 300 };
     for k in 0..n_rand {
         let mut p = robots::geometry(robots::GEOMETRY_CLASSES[k % robots::GEOMETRY_CLASSES.len()], &mut r);
         p = robots::convention(p, r.gen_range(0..64), ["zero", "quarter", "random"][k % 3], &mut r);
@@ -188,7 +188,7 @@ pub fn replay(input: &str, output: &str) {
         ("two-documents".into(), format!("---\n{}---\n{}", good, good).into_bytes()),
         ("nan".into(), good.replace("a1: ", "a1: .nan #").into_bytes()),
     ];
-    let n_fuzz = if thorough() { 20_000 } else { 1_500 };
+    let n_fuzz = if thorough() { 100_000 } else { 1_500 };
     let gb = good.as_bytes();
     for k in 0..n_fuzz {
         let mut b = if k % 3 == 0 { (0..r.gen_range(0..200)).map(|_| r.gen::<u8>()).collect::<Vec<u8>>() } else { gb.to_vec() };
